@@ -29,7 +29,12 @@ def run(C, R):
         CG = C.cg(cfg)
         R.configs.append(cfg)
         npush = npop = nsucc = nsc = ndirect = nq = 0
-        for m in entry_methods(F, CG, STATE):
+        # the state layer's atomic transitions, and - so that a wrapper reaching around them is seen too -
+        # every method of the channel type itself (state functions inlined)
+        subjects = list(entry_methods(F, CG, STATE))
+        subjects += [f for f in F.raw['fns'] if f.get('impl_adt') == 'channel::mpmc::GenericChannel'
+                     and f['kind'] != 'closure' and not (f.get('impl_trait') or '').endswith('fmt::Debug')]
+        for m in subjects:
             paths = E.run(m['path'])
             R.add_paths(m['path'], len(paths))
             owns = own_node_roots(F, m)
@@ -62,7 +67,8 @@ def run(C, R):
                                'path [%s]' % (m['path'], pc), where(F, e), {'trace': trace_summary(path)})
                 # R2
                 for n, (i, e) in enumerate(bc):
-                    if e['name'] != 'pop' or m.get('name') == 'clear':
+                    if e['name'] != 'pop' or any(d['k'] == 'drop' and d['val'] == e['ret'] for d in path.events):
+                        # a popped value that is dropped on the spot is the discard of the last receiver (C08.R1/R2)
                         continue
                     npop += 1
                     refill = [(k, q) for k, q in enumerate(path.events) if k > i and q['k'] == 'qop'
